@@ -635,7 +635,9 @@ Error RALocalAllocator::alloc_instruction(InstNode* node) noexcept {
             uint32_t op_index = Support::ctz(tied_reg->use_rewrite_mask()) / uint32_t(sizeof(Operand) / sizeof(uint32_t));
             uint32_t rm_size = tied_reg->rm_size();
 
-            if (rm_size <= work_reg->virt_reg()->virt_size()) {
+            // A written operand can only be patched when the memory form writes the whole register - a narrower
+            // write to a register may extend (X86 32-bit writes zero the upper half), the same write to memory doesn't.
+            if (rm_size <= work_reg->virt_reg()->virt_size() && (!tied_reg->is_write() || rm_size == work_reg->virt_reg()->virt_size())) {
               Operand& op = node->operands()[op_index];
               op = _pass.work_reg_as_mem(work_reg);
 
